@@ -68,7 +68,9 @@ WSEEDS = [b'', b'\\\\?\\UNC\\s\\sh', b'\\\\?\\UNC\\s', b'\\\\?\\UNC\\', b'\\\\?\
           b'\\\\.\\COM1', b'\\/?\\x', b'/\\s/sh', b'\\\\?\\UNC/s', b'z:', b'\\\\?\\UNC\\s\\sh\\', b'\\\\?\\C:\\', b'C:\\', b'C:/', b'\\',
           b'/', b'\\\\?\\\\', b'//?/C:', b'\\\\.\\dev\\', b'\\\\s\\sh\\',
           # prefixes whose last byte is ':' without being a drive (a join must still add a separator after them)
-          b'\\\\.\\C:', b'\\\\.\\COM1:', b'\\\\s\\C:', b'\\\\s\\sh:', b'\\\\?\\UNC\\s\\C:', b'\\\\?\\pic:', b'//./C:']
+          b'\\\\.\\C:', b'\\\\.\\COM1:', b'\\\\s\\C:', b'\\\\s\\sh:', b'\\\\?\\UNC\\s\\C:', b'\\\\?\\pic:', b'//./C:',
+          # case variants of the one word the prefix grammar matches literally
+          b'\\\\?\\unc\\s\\sh', b'\\\\?\\Unc\\s\\sh', b'\\\\?\\uNC\\s', b'\\\\?\\unc', b'\\\\?\\UNc\\s\\sh\\']
 WALPHA4 = [0x5c, 0x2f, 0x2e, 0x61]
 WALPHA7 = [0x5c, 0x2f, 0x2e, 0x3a, 0x3f, 0x61, 0x43]
 UALPHA4 = [0x2f, 0x2e, 0x61, 0x62]
